@@ -74,7 +74,7 @@ CLAIMED = {
             "nothing skipped, repeated or reordered); the brothers of a block go out in the order of the list "
             "handed over, each as metadata + prefix of its bytes (brothers_in_order), and that list is a "
             "permutation of the client's brothers, pairwise ascending by hash key (brothers_sorted: total + "
-            "transitive byte order, core mergeSort lemmas, stable); length/count fields round-trip. The oracle "
+            "transitive byte order, core mergeSort lemmas, stable); length/count fields round-trip; the RLP codec of the model (pyrlp strict decode / raw encode) round-trips for every item shorter than 2^64 bytes (rlp_roundtrip, induction on the decoder fuel), the announced merge-mining size is the payload length of the field list without the merge-mining fields on both sides of every length-form boundary (announced_size_is_payload_length), and the form sent for an ancestor update is a fixed point of the removal, so its block hash equals that of the client's block for any keccak (mm_removal_keeps_hash). The oracle "
             "Spec.C05.c05 re-parses the implementation's APDU trace into (metadata, header, brothers) segments and "
             "checks announced count, byte-exact in-order headers (mm fields removed for ancestor updates), "
             "metadata = BE16(mm payload length) || coinbase hash (hash recomputed independently from the full "
